@@ -6,6 +6,7 @@ import (
 	"bytes"
 	"context"
 	"crypto/sha256"
+	"encoding/binary"
 	"fmt"
 	"os"
 	"path/filepath"
@@ -43,8 +44,48 @@ func vfRoleFile(e *vfEpochEnv, role string) string {
 }
 
 type vfC10Src struct {
-	Env  string // "A", "B", "A2"
-	Role string // which role's file of that env
+	Env   string // "A", "B", "A2"
+	Role  string // which role's file of that env
+	Patch string // "", "epoch" (-> B's epoch), "root" (-> A2's root): A's file with exactly one identity field replaced
+}
+
+// vfPatchMeta returns a copy of the file in which the value of one metadata
+// key (indexmeta layout: len(key) key len(value) value) is replaced by a value
+// of the same length.
+func vfPatchMeta(src, dst string, key, newVal []byte) bool {
+	raw, err := os.ReadFile(src)
+	if err != nil {
+		return false
+	}
+	pat := append(append([]byte{byte(len(key))}, key...), byte(len(newVal)))
+	limit := len(raw)
+	if limit > 4096 {
+		limit = 4096
+	}
+	i := bytes.Index(raw[:limit], pat)
+	if i < 0 || i+len(pat)+len(newVal) > len(raw) {
+		return false
+	}
+	copy(raw[i+len(pat):], newVal)
+	return os.WriteFile(dst, raw, 0o644) == nil
+}
+
+func vfCopyDir(src, dst string) error {
+	os.MkdirAll(dst, 0o755)
+	ents, err := os.ReadDir(src)
+	if err != nil {
+		return err
+	}
+	for _, e := range ents {
+		b, err := os.ReadFile(filepath.Join(src, e.Name()))
+		if err != nil {
+			return err
+		}
+		if err := os.WriteFile(filepath.Join(dst, e.Name()), b, 0o644); err != nil {
+			return err
+		}
+	}
+	return nil
 }
 
 // vfC10expectFail decides from identity fields alone whether loading must fail.
@@ -54,6 +95,13 @@ func vfC10expectFail(assign map[string]vfC10Src, epochOf map[string]uint64, root
 		src := assign[role]
 		if src.Role != role {
 			return true, fmt.Sprintf("%s is the %s file", role, src.Role)
+		}
+		if src.Patch == "epoch" {
+			return true, fmt.Sprintf("the epoch field of %s was replaced by %d, config says %d", role, epochOf["B"], cfgEpoch)
+		}
+		if src.Patch == "root" {
+			roots[rootOf["A2"]] = true
+			continue
 		}
 		if epochOf[src.Env] != cfgEpoch {
 			return true, fmt.Sprintf("%s records epoch %d, config says %d", role, epochOf[src.Env], cfgEpoch)
@@ -97,12 +145,44 @@ func vfC10eval(c *vfC10Case, st map[string]int) error {
 	cfgEpoch := gens["A"].Num
 	cache := vfNewCache()
 	n := 0
+	// A's files with exactly one identity field replaced
+	patched := map[string]string{}
+	epochB := make([]byte, 8)
+	binary.LittleEndian.PutUint64(epochB, gens["B"].Num)
+	rootA2 := gens["A2"].Root.Bytes()
+	for _, role := range []string{"cid_to_offset_and_size", "slot_to_cid", "sig_to_cid", "sig_exists", "gsfa"} {
+		for field, val := range map[string][]byte{"epoch": epochB, "root": rootA2} {
+			key := indexmeta.MetadataKey_Epoch
+			if field == "root" {
+				key = indexmeta.MetadataKey_RootCid
+				if len(rootA2) != len(gens["A"].Root.Bytes()) {
+					continue
+				}
+			}
+			src := vfRoleFile(envs["A"], role)
+			dst := filepath.Join(dir, "patched-"+role+"-"+field)
+			ok := false
+			if role == "gsfa" {
+				if vfCopyDir(src, dst) == nil {
+					ok = vfPatchMeta(filepath.Join(src, "manifest"), filepath.Join(dst, "manifest"), key, val)
+				}
+			} else {
+				ok = vfPatchMeta(src, dst, key, val)
+			}
+			if ok {
+				patched[role+"/"+field] = dst
+			}
+		}
+	}
 	try := func(assign map[string]vfC10Src, label string) error {
 		n++
 		over := map[string]string{}
 		for _, role := range vfC10Roles {
 			src := assign[role]
 			over[role] = vfRoleFile(envs[src.Env], src.Role)
+			if src.Patch != "" {
+				over[role] = patched[role+"/"+src.Patch]
+			}
 		}
 		cfgPath := filepath.Join(dir, fmt.Sprintf("cfg-%d.yaml", n))
 		if err := os.WriteFile(cfgPath, []byte(envs["A"].configYAML(over)), 0o644); err != nil {
@@ -138,7 +218,7 @@ func vfC10eval(c *vfC10Case, st map[string]int) error {
 	}
 	base := map[string]vfC10Src{}
 	for _, r := range vfC10Roles {
-		base[r] = vfC10Src{"A", r}
+		base[r] = vfC10Src{"A", r, ""}
 	}
 	clone := func() map[string]vfC10Src {
 		m := map[string]vfC10Src{}
@@ -175,7 +255,7 @@ func vfC10eval(c *vfC10Case, st map[string]int) error {
 	for _, role := range vfC10Roles {
 		for _, env := range []string{"B", "A2"} {
 			m := clone()
-			m[role] = vfC10Src{env, role}
+			m[role] = vfC10Src{env, role, ""}
 			subs = append(subs, m)
 			labels = append(labels, fmt.Sprintf("%s from %s", role, env))
 		}
@@ -184,10 +264,19 @@ func vfC10eval(c *vfC10Case, st map[string]int) error {
 				continue // a directory cannot stand in for a file and vice versa (the open fails trivially)
 			}
 			m := clone()
-			m[role] = vfC10Src{"A", other}
+			m[role] = vfC10Src{"A", other, ""}
 			subs = append(subs, m)
 			labels = append(labels, fmt.Sprintf("%s <- A's %s file", role, other))
 		}
+	}
+	// A's own files with exactly one identity field replaced (epoch of B / root of A2)
+	for k := range patched {
+		role, field := filepath.Dir(k), filepath.Base(k)
+		m := clone()
+		m[role] = vfC10Src{"A", role, field}
+		subs = append(subs, m)
+		labels = append(labels, fmt.Sprintf("%s of A with its %s field replaced", role, field))
+		st["field-patch:"+field]++
 	}
 	// pairs
 	for i, r1 := range vfC10Roles {
@@ -195,8 +284,8 @@ func vfC10eval(c *vfC10Case, st map[string]int) error {
 			for _, e1 := range []string{"B", "A2"} {
 				for _, e2 := range []string{"B", "A2"} {
 					m := clone()
-					m[r1] = vfC10Src{e1, r1}
-					m[r2] = vfC10Src{e2, r2}
+					m[r1] = vfC10Src{e1, r1, ""}
+					m[r2] = vfC10Src{e2, r2, ""}
 					subs = append(subs, m)
 					labels = append(labels, fmt.Sprintf("%s from %s + %s from %s", r1, e1, r2, e2))
 				}
@@ -207,7 +296,7 @@ func vfC10eval(c *vfC10Case, st map[string]int) error {
 	{
 		m := clone()
 		for _, r := range vfC10Roles {
-			m[r] = vfC10Src{"A2", r}
+			m[r] = vfC10Src{"A2", r, ""}
 		}
 		subs = append(subs, m)
 		labels = append(labels, "all indexes from A2, CAR from A")
@@ -266,13 +355,14 @@ func vfC10eval(c *vfC10Case, st map[string]int) error {
 func TestVfC10(t *testing.T) {
 	run := vfh.Begin("C10", "identity")
 	defer run.End(t)
-	run.Require("must-fail", "must-load", "foreign-car-fetches")
+	run.Require("must-fail", "must-load", "foreign-car-fetches", "field-patch:epoch", "field-patch:root")
 	opts := cargen.DefaultOpts()
 	opts.MaxBlocks = 5
 	opts.BigFrames = false
 	rapid.Check(t, func(rt *rapid.T) {
 		c := &vfC10Case{A: cargen.Gen(rt, opts), B: cargen.Gen(rt, opts), A2: cargen.Gen(rt, opts)}
 		c.A2.Epoch = c.A.Epoch
+		c.A2.RootHash, c.A2.RootTrunc = c.A.RootHash, c.A.RootTrunc // same root CID length: the root field can be patched in place
 		if c.A2.Seed == c.A.Seed {
 			c.A2.Seed++
 		}
